@@ -206,6 +206,7 @@ func (tr *Tr) loopHeader(fr *Frame, li *loopInfo) {
 	li.phiVal = map[*ssa.Phi]Val{}
 	for _, p := range li.phis {
 		li.phiVal[p] = tr.freshVal(p.Type(), "L"+fmt.Sprint(li.ord)+"_"+p.Comment)
+		fr.env[p] = li.phiVal[p]
 	}
 	tr.havocLoop(fr, li)
 	li.havocSt = fr.st.clone()
@@ -468,7 +469,9 @@ func (tr *Tr) bumpAlloc(st *State) {
 }
 
 // rootOf follows address computations back to the value that determines the region.
-func rootOf(v ssa.Value) ssa.Value {
+func rootOf(v ssa.Value) ssa.Value { return rootOfD(v, 0) }
+
+func rootOfD(v ssa.Value, depth int) ssa.Value {
 	for {
 		switch x := v.(type) {
 		case *ssa.FieldAddr:
@@ -481,6 +484,30 @@ func rootOf(v ssa.Value) ssa.Value {
 			v = x.X
 		case *ssa.ChangeInterface:
 			v = x.X
+		case *ssa.Phi:
+			// all incoming values share one root (e.g. chunk := b / chunk = b[:n])
+			if depth > 4 {
+				return v
+			}
+			var r ssa.Value
+			for _, e := range x.Edges {
+				if e == ssa.Value(x) {
+					continue
+				}
+				er := rootOfD(e, depth+1)
+				if er == ssa.Value(x) {
+					continue
+				}
+				if r == nil {
+					r = er
+				} else if r != er {
+					return v
+				}
+			}
+			if r == nil {
+				return v
+			}
+			return r
 		default:
 			return v
 		}
